@@ -46,6 +46,8 @@ FIXED = [
   "with rapid-event-delay 0 the key following a one-shot sets its remaining time to 0; is_idle treated timeout==0 as idle, the loop blocked and the one-shot modifier stayed down until the next key event"),
  ("F17", "C07", "fix: kanata keeps ticking while a dynamic macro is being recorded",
   "while a dynamic macro was being recorded the loop blocked between key events and the blocked time was not counted into the recorded delays, so the replay was paced differently"),
+ ("F14", "C10", "fix: switch boolean evaluation of a nested list as the last operand of a not",
+  "`(and (not (and a b)) c)` with only c active evaluated to false: a nested operator list that is false as the last operand of a `not` (which is not at the end of the expression) made the `not` false"),
 ]
 log = subprocess.check_output(["git", "-C", "/repo", "log", "--format=%h %s"]).decode().splitlines()
 out = []
